@@ -40,7 +40,7 @@ func init() {
 			"(c) deadlock freedom by controlled scheduling - request goroutines are parked at every store operation by a gating Store wrapper; for pairs of requests all interleavings (for triples, seeded priorities) are driven; a run is a deadlock iff nothing can be released any more and every unfinished request goroutine is in a sync.(RW)Mutex wait (goroutine dump); other stalls are inconclusive. Non-trivial = stress round completed / history checked / schedule driven to an end; distinct by (round seed), (history), (request set, schedule).",
 		Assumptions: []string{"interleavings are explored at store-operation granularity plus what the Go scheduler adds under stress; instruction-level interleavings inside critical sections are the race detector's job", "race reports whose stacks contain no crewjam/saml frame are harness defects and break the run instead of counting as violations"},
 		FloorQuick:  300,
-		FloorThor:   5000,
+		FloorThor:   1200,
 		Shards:      8,
 		Race:        true,
 		TimeoutQ:    15 * time.Minute,
